@@ -20,19 +20,19 @@ CHECKS = {
               note="Trusts the IR interpreter and device model in /verif (assumptions A1-A3), xDSL 0.70 + irdl_options shim instead of the pinned xDSL commit; bounds: <=24 statements, nesting<=3, <=2 accelerators x <=6 fields, trip counts 0..4 and 9.",
               tech="deterministic simulation of the emitted accfg program (reference vs deduplicated) with seeded clobber/latency faults; history refinement oracle", ref="5 C01"),
  "C04": dict(text="Seeded search over (accelerator configuration, accfg program) pairs: the register map comes from generate_acc_op() of the current tree for seeded streamer configurations of every accelerator class; the program is lowered by convert-accfg-to-csr and executed on a CSR-level device model (registers by address, launch/busy/barrier conventions, RoCC decoder) next to the accfg-level reference under clobber, latency and CSR-garbage faults. Compared: per-field write history through the declared map, register snapshot by address at every launch (where a non-injective map shows), await behaviour, RoCC operand pairs, and that no accfg value survives.",
-              note="Trusts the CSR device model written from the docstrings in accelerators/snax.py (polling conventions, status registers at launch_streamer+1/+2, clearing write 0x3c5 for hwpe_mult); barrier styles 2 and 4 (unused by any accelerator class) and gemmx mult_vals launches are not exercised; PHS accelerator built with a duck-typed PE/template; values compared mod 2^32 / 2^64.",
+              note="Trusts the CSR device model written from the docstrings in accelerators/snax.py (polling conventions, status registers at launch_streamer+1/+2, clearing write 0x3c5 for hwpe_mult); barrier styles 2 and 4 (unused by any accelerator class of the repo) are exercised through synthetic accelerators defined in /verif; gemmx mult_vals launches are not generated; PHS accelerator built with a duck-typed PE/template; values compared mod 2^32 / 2^64.",
               tech="deterministic simulation of the lowered CSR program against a device model with seeded latency / CSR-garbage / clobber faults; refinement of the accfg-level history through the declared register map", ref="5 C04"),
  "C11": dict(text="Seeded search (degenerate use of the simulator: one core, no interleaving; injected nondeterminism: L1 window, alignments, solver packing order, runtime shapes): (size) the size arithmetic emitted by memref-to-snax is executed with runtime shapes and compared with the highest byte an independent layout oracle says the layout touches; (place) functions with allocs, subviews, casts and uses in straight-line and nested code are lowered by memref-to-snax,canonicalize,snax-allocate in all four modes and executed on a memory with ownership shadow: uses stay inside their allocation, the window and the alignment, and buffers live at the same time never share addresses.",
               note="The minimalloc solver is a stub (first-fit interval packer, seeded order): what is checked of the repo is the lifetime computation, address materialisation and size formula; uses touch first/last byte of their view; row-major 1-D buffers in the placement family; A8 for dynamic TSL steps.",
               tech="deterministic simulation of the allocated program on a memory with ownership shadow; seeded windows / alignments / solver answers (no schedule/fault dimension)", ref="5 C11"),
  "C12": dict(text="Seeded search (degenerate use of the simulator: one core, no interleaving): functions with arguments, allocs and kernels in loops are compiled with set-memory-space,realize-memref-casts and executed on symbolic buffer contents next to the uncompiled reference (kernels operate on the arguments directly): every kernel must read the provenance the reference read, the arguments must end equal, every kernel operand must be in L1, argument types keep L3, and the output must respect SSA dominance. Constants and globals re-laid-out at compile time are decoded byte by byte with an independent layout oracle.",
-              note="Data failures are judged only when every cast value is first read (or never read): programs that first write then read an argument through its cast are reported as OBSERVATION, because the statement words the copy-in as 'before its first reader'. alloc-to-global and RemoveTransposeConstants are not exercised. Buffers of 4 elements, <= 12 kernels, loop nesting <= 2, trips 0..2.",
+              note="Data failures are judged only when every cast value is first read (or never read): programs that first write then read an argument through its cast are reported as OBSERVATION, because the statement words the copy-in as 'before its first reader'. alloc-to-global is not exercised; RemoveTransposeConstants is applied as a rewrite pattern (its pass shells out to mlir-opt). Buffers of 4 elements, <= 12 kernels, loop nesting <= 2, trips 0..2.",
               tech="deterministic simulation of reference vs compiled program on symbolic buffer contents; provenance refinement + static dominance/memory-space oracles (no schedule/fault dimension)", ref="5 C12"),
  "C13": dict(text="Seeded search over schedules: the function produced by insert-sync-barrier (optionally followed by dispatch-regions) is executed by 2-4 simulated cores on shared symbolic memory; a seeded scheduler decides every interleaving, stall and DMA/kernel burst split. A barrier-epoch race monitor checks every memory cell online, the barrier model detects deadlock, and final buffer contents plus everything each copy/kernel read are compared with the sequential single-core reference.",
-              note="Trusts the cluster model in /verif (A4-A6: non-atomic multi-burst copies/kernels, all-core barrier, collective allocs), whole-buffer operands (dependencies through subviews/aliases are not generated), buffers of 4 elements, <=16 statements, nesting<=3, trip counts 0..3.",
+              note="Trusts the cluster model in /verif (A4-A6: non-atomic multi-burst copies/kernels, all-core barrier, collective allocs), whole buffers and (30% of cases) subviews of one allocation, streaming regions, multi-block functions; buffers of 4 elements, <=16 statements, nesting<=3, trip counts 0..3.",
               tech="deterministic multi-core simulation with seeded scheduler (interleavings, stalls, burst sizes); race monitor + deadlock invariant + refinement against sequential reference", ref="5 C13"),
  "C14": dict(text="Seeded search: the function produced by dispatch-regions{nb_cores=N} (N=2..5; thorough also function-constant-pinning) is executed by all N simulated cores; each core's history of executed tagged operations with evaluated operands must equal the original sequential history filtered by the dispatch rule (restated independently in /verif), and no schedule may deadlock at a barrier.",
-              note="Trusts the interpreter and cluster model; single-block functions with scf control flow; interleavings are randomised only because the deadlock invariant depends on them (the history oracle does not).",
+              note="Trusts the interpreter and cluster model; functions with scf control flow and (20% of cases) several blocks linked by cf.br / cf.cond_br; copies, linalg.generic and dart streaming regions (XDMA extension kernels = data mover, snax_alu = compute) as dispatchable ops; interleavings are randomised only because the deadlock invariant depends on them (the history oracle does not).",
               tech="deterministic multi-core simulation; per-core history refinement against the filtered sequential reference, deadlock invariant", ref="5 C14"),
  "C15": dict(text="Seeded search over schedules and trip counts: pipeline-shaped loops are compiled with construct-pipeline, pipeline-duplicate-buffers, unroll-pipeline (optionally prefixed by pipeline-canonicalize-for or followed by insert-sync-barrier,dispatch-regions) and executed by 2-3 simulated cores under seeded interleavings, stalls and burst splits; compared with the sequential loop: multiset of (stage op, external tile, data read), final contents of the function arguments, set of external cells touched; race monitor and barrier deadlock online.",
               note="Trusts the cluster model (A4-A6); tiles of 2 elements, 2-4 stages, trip counts 0..6, lb in {0,1,3}, step in {1,2}; after fix 8d5b077 only loops with constant lb 0 / step 1 / ub >= #stages-1 are pipelined, other environments check that the loop is left alone.",
